@@ -507,12 +507,14 @@ SignalHandler::SignalHandler(BasicSolver &s)
   solver_.set_interrupter(this);
   signal_message_ptr_ = message_.c_str();
   signal_message_size_ = static_cast<unsigned>(message_.size());
+  // Reset the flag before installing the handlers:
+  // a signal arriving right after installation must not be forgotten.
+  stop_ = 0;
   MP_VERIF_SIG_POINT(10);
   std::signal(SIGINT, HandleSigInt);
   MP_VERIF_SIG_POINT(11);
   std::signal(SIGTERM, HandleSigInt);
   MP_VERIF_SIG_POINT(12);
-  stop_ = 0;
   MP_VERIF_SIG_POINT(13);
 }
 
